@@ -33,7 +33,12 @@ fn run_final(ops: &[Op], orig_index: &[usize], rho_back: Option<Vec<(u32, u32)>>
     // optionally a few rewrite iterations with slot-name-independent rules (the same in every run that is compared)
     if rewrite > 0 {
         let names: [&[&str]; 5] = [&["add-comm", "mul-comm", "add-assoc"], &["k-def", "h-def"], &["sum-swap", "add-comm", "k-def"], &["var-factor", "add-comm"], &["mul-comm", "factor"]];
-        let rws: Vec<Rewrite<Main>> = names[(rewrite - 1) % 5].iter().filter_map(|n| POOL.iter().find(|r| r.0 == *n)).map(|r| mk_rule(r)).collect();
+        let rws: Vec<Rewrite<Main>> = if rewrite == 6 {
+            // (metamorphic suites only: a rule over a leaf with two slots of its own, one of them used again elsewhere)
+            vec![Rewrite::new("two-slot", "(k (f2 $a $b) (g1 $a))", "(h (g1 $b))"), Rewrite::new("two-slot-rev", "(k (g2 $b $a) (g1 $a))", "(h (g1 $b))")]
+        } else {
+            names[(rewrite - 1) % 5].iter().filter_map(|n| POOL.iter().find(|r| r.0 == *n)).map(|r| mk_rule(r)).collect()
+        };
         for _ in 0..2 {
             if eg.total_number_of_nodes() > 120 {
                 break;
@@ -280,7 +285,26 @@ fn rename_case(rng: &mut Rng) -> Case {
     // non-linear `factor` rule — once the products are symmetric, whether the rule finds its instance must not depend on
     // which of the variants of the sum node is the stored one, i.e. on how the names sort
     let symfactor = !slotarith && rng.chance(1, 7);
-    let (ops, stream) = if symfactor {
+    // one case in eight: a pattern node with two slots of its own (`(f2 $a $b)`), one of which the pattern uses again: which
+    // e-graph slot stands for which pattern slot is a matter of position, not of how the names sort
+    let twoslot = !slotarith && !symfactor && rng.chance(1, 8);
+    let (ops, stream) = if twoslot {
+        let bin = |v: usize, a: ATerm, b: ATerm| ATerm { v, fields: vec![CField::App, CField::App], children: vec![a, b] };
+        let mut nm: Vec<u32> = vec![4, 8, 2, 6];
+        rng.shuffle(&mut nm);
+        let (x, y) = (nm[0], nm[1]);
+        let two = if rng.chance(1, 2) { 7 } else { 11 };
+        let mut ops = vec![
+            Op::Add(bin(14, leaf(two, &[x, y]), leaf(10, &[x]))),
+            Op::Add(bin(14, leaf(two, &[y, x]), leaf(10, &[x]))),
+            Op::Add(un(13, leaf(10, &[x]))),
+            Op::Add(un(13, leaf(10, &[y]))),
+        ];
+        if rng.chance(1, 2) {
+            ops.push(Op::Add(bin(14, leaf(two, &[x, y]), leaf(10, &[y]))));
+        }
+        (ops, "twoslot")
+    } else if symfactor {
         let var = |c: u32| ATerm { v: 2, fields: vec![CField::Slot(c)], children: vec![] };
         let bin = |v: usize, a: ATerm, b: ATerm| ATerm { v, fields: vec![CField::App, CField::App], children: vec![a, b] };
         let mut nm: Vec<u32> = vec![4, 8, 2, 6];
@@ -358,7 +382,7 @@ fn rename_case(rng: &mut Rng) -> Case {
     }
     let rs = runs.clone();
     // a third of the cases continue with two rewrite iterations (arithmetic start terms make the rules fire)
-    let rewrite = if symfactor { 5 } else if slotarith { 4 } else if rng.chance(1, 3) { 1 + rng.below(3) } else { 0 };
+    let rewrite = if twoslot { 6 } else if symfactor { 5 } else if slotarith { 4 } else if rng.chance(1, 3) { 1 + rng.below(3) } else { 0 };
     let r = in_fresh_thread(move || {
         intern_names();
         rs.iter().map(|(_, ops, back)| run_final(ops, &idx, back.clone(), rewrite)).collect::<Vec<_>>()
